@@ -19,6 +19,7 @@ func init() { Sched["c19"] = c19; Sched["c19_seq"] = c19Seq; Sched["c19_redial"]
 type c19backend struct {
 	peer        erpc.Peer
 	call        string
+	typed       string
 	push        string
 	ran         int
 	lastArg     string
@@ -57,6 +58,15 @@ func newC19backend(codecName string) *c19backend {
 		}
 		return append([]byte("echo:"), *arg...), nil
 	})
+	// a handler with typed argument and result: its reply is encoded with whatever codec the caller asked for
+	b.typed = b.peer.SubRoute("/typed").RouteCallFunc(func(ctx erpc.CallCtx, arg *string) (*string, *erpc.Status) {
+		b.ran++
+		if b.status != nil {
+			return nil, b.status
+		}
+		r := "typed:" + *arg
+		return &r, nil
+	})
 	b.push = b.peer.RoutePushFunc(func(ctx erpc.PushCtx, arg *[]byte) *erpc.Status {
 		b.ran++
 		b.lastArg = string(*arg)
@@ -73,8 +83,11 @@ type c19result struct {
 	codec byte
 }
 
-func doCall(sess erpc.Session, method string, body []byte, codecID byte, metas [][2]string) c19result {
+func doCall(sess erpc.Session, method string, body []byte, codecID byte, metas [][2]string, accept ...byte) c19result {
 	settings := []erpc.MessageSetting{erpc.WithBodyCodec(codecID)}
+	if len(accept) > 0 && accept[0] != 0 {
+		settings = append(settings, erpc.WithAcceptBodyCodec(accept[0])) // the caller asks for the reply in another codec
+	}
 	for _, kv := range metas {
 		settings = append(settings, erpc.WithAddMeta(kv[0], kv[1]))
 	}
@@ -117,7 +130,14 @@ func c19(p Params) func() {
 		bstat := stats[vsched.Choose(len(stats), "backend_status")]
 		faults := []string{"none", "before", "during"}
 		fault := faults[vsched.Choose(len(faults), "fault")]
-		ctxt := fmt.Sprintf("kind=%s method=%s codec=%s body=%q meta=%v backend_status=%s fault=%s", kind, method, cd.name, body, metas, triple(bstat), fault)
+		// the caller may ask for the reply in a codec of its choice (crossed with the fault-free, metadata-free part
+		// of the product only, to keep the product tractable)
+		accept := []byte{0, 'x', 'j', 's'}[vsched.Choose(4, "accept_codec")]
+		if accept != 0 && (kind != "call" || fault != "none" || len(metas) != 0) {
+			world.Counter("pruned_accept")
+			return
+		}
+		ctxt := fmt.Sprintf("kind=%s method=%s codec=%s accept=%q body=%q meta=%v backend_status=%s fault=%s", kind, method, cd.name, string(accept), body, metas, triple(bstat), fault)
 		if kind == "push" && (bstat != nil) {
 			bstat = nil
 		}
@@ -158,7 +178,7 @@ func c19(p Params) func() {
 			be.closeDuring = true
 		}
 		if kind == "call" {
-			got := doCall(cs, name(be), []byte(body), cd.id, metas)
+			got := doCall(cs, name(be), []byte(body), cd.id, metas, accept)
 			vsched.Quiesce()
 			if fault != "none" && !(fault == "during" && method == "nowhere") {
 				if !strings.HasPrefix(got.stat, "(502|") {
@@ -167,8 +187,27 @@ func c19(p Params) func() {
 				vsched.Logf("fault %s", ctxt)
 				return
 			}
-			want := doCall(rcs, name(ref), []byte(body), cd.id, metas)
+			want := doCall(rcs, name(ref), []byte(body), cd.id, metas, accept)
 			vsched.Quiesce()
+			if method == "served" && cd.id == 'j' && body == `"hello"` {
+				// the same through a handler with typed argument and result, decoded by the caller into a string
+				typedCall := func(sess erpc.Session, m string) string {
+					var res string
+					st := []erpc.MessageSetting{erpc.WithBodyCodec('j')}
+					if accept != 0 {
+						st = append(st, erpc.WithAcceptBodyCodec(accept))
+					}
+					cmd := sess.Call(m, "hello", &res, st...)
+					return fmt.Sprintf("%s result=%q codec=%d", triple(cmd.Status()), res, cmd.InputBodyCodec())
+				}
+				tg, tw := typedCall(cs, be.typed), typedCall(rcs, ref.typed)
+				vsched.Quiesce()
+				if tg != tw {
+					vsched.Failf("typed call through the proxy: %s, directly: %s | %s", tg, tw, ctxt)
+				}
+				be.ran--
+				ref.ran--
+			}
 			if got.stat != want.stat {
 				vsched.Failf("proxied status %s differs from the direct status %s | %s", got.stat, want.stat, ctxt)
 			}
